@@ -9,8 +9,8 @@ import pickle
 from .common import add_failure, bump, load_known, new_outcome
 
 PROP = "C10"
-PROPS_FILES = ["CogentModel/Props/C10.lean", "CogentModel/Props/C10Tree.lean", "CogentModel/Props/C10Registry.lean"]
-LEAN_TARGETS = ["CogentModel.Props.C10", "CogentModel.Props.C10Tree", "CogentModel.Props.C10Registry"]
+PROPS_FILES = ["CogentModel/Props/C10.lean", "CogentModel/Props/C10Tree.lean", "CogentModel/Props/C10Registry.lean", "CogentModel/Props/C10Rich.lean"]
+LEAN_TARGETS = ["CogentModel.Props.C10", "CogentModel.Props.C10Tree", "CogentModel.Props.C10Registry", "CogentModel.Props.C10Rich"]
 DRIVER = "drv_c10"
 TRUSTED = [
     "hand-written model lean/CogentModel/Model/RichDict.lean of SeqView.to_rich_dict/from_rich_dict/copy(sliced=True), "
